@@ -1,5 +1,12 @@
 package vf
 
-import "time"
+import (
+	"runtime"
+	"time"
+)
 
 func quiesceNative() { time.Sleep(20 * time.Millisecond) }
+
+func yieldNative() { runtime.Gosched() }
+
+func slowNative() { time.Sleep(6 * time.Second) }
